@@ -101,6 +101,12 @@ func (p *proxyObject) Type() types.Type {
 	return rv.Interface().(types.Type)
 }
 
+// boxedValue carries an engine value through native interface{} slots.
+type boxedValue struct {
+	v Value
+	t types.Type
+}
+
 type proxyError struct {
 	e   *Exec
 	val Iface
@@ -348,6 +354,8 @@ func (e *Exec) fromNative(rv reflect.Value, st types.Type) Value {
 				return Iface{T: p.t, V: p.val}
 			case *proxyError:
 				return p.val
+			case boxedValue:
+				return Iface{T: p.t, V: p.v}
 			case constant.Value:
 				return Iface{T: cvFakeType, V: e.cvFromReal(p)}
 			}
@@ -609,7 +617,12 @@ func (e *Exec) toNativeIface(v Value, rt reflect.Type) reflect.Value {
 		}
 	}
 	if rt.NumMethod() == 0 {
-		// empty interface: pass best-effort concrete rendering
+		switch ifc.V.(type) {
+		case *Value, Struct, Array, SliceV, *MapV, *Closure, Iface, *symBig:
+			// engine-memory value travelling through a native `any` slot: keep identity
+			return set(reflect.ValueOf(boxedValue{v: ifc.V, t: ifc.T}))
+		}
+		// scalars: pass a concrete Go value
 		return set(reflect.ValueOf(e.printable(ifc)))
 	}
 	e.outside("toNativeIface: cannot pass %v as %v", ifc.T, rt)
